@@ -705,20 +705,20 @@ pub fn check_dd_sample(case: &Case, r: &Routed, x: &[f64], acc: &mut Acc) -> boo
     // the parameters are recovered as differences L_ii - L_ij: a spread x_max/x_min costs that many of the 106 bits
     let spread = q_to_f64(&(&xq[order[0]] / &xq[order[ne - 1]]));
     let tol_a = 2f64.powi(-80) * kap + 2f64.powi(-100) * spread * (d2 * nl as f64 + dod_impl);
-    if !(tol_a <= 1e-20) {
-        acc.inc("dd_sampler_excluded_spread");
-        return false;
-    }
     acc.inc("dd_sampler_judged");
-    acc.max("dd_sampler_normalisation_units_2^-80", lhs.abs() / tol_a);
-    if !(lhs.abs() <= tol_a) {
-        acc.violate(
-            key("wide type: normalisation"),
-            "a higher-precision type yields correspondingly more precise results",
-            format!("with a double-double scalar ln(U_tr^(D/2) V_tr^dod) = {lhs:e} after the rescaling (allowed {tol_a:e}); an f64 detour in the rescaling gives about 1e-16"),
-            pc(),
-        );
-        return true;
+    if tol_a <= 1e-20 {
+        acc.max("dd_sampler_normalisation_units_2^-80", lhs.abs() / tol_a);
+        if !(lhs.abs() <= tol_a) {
+            acc.violate(
+                key("wide type: normalisation"),
+                "a higher-precision type yields correspondingly more precise results",
+                format!("with a double-double scalar ln(U_tr^(D/2) V_tr^dod) = {lhs:e} after the rescaling (allowed {tol_a:e}); an f64 detour in the rescaling gives about 1e-16"),
+                pc(),
+            );
+            return true;
+        }
+    } else {
+        acc.inc("dd_sampler_normalisation_excluded_spread");
     }
     // (B) u and v against the exact polynomials at the double-double parameters
     let ex_u = u_poly(&case.comb, &xq);
@@ -729,16 +729,27 @@ pub fn check_dd_sample(case: &Case, r: &Routed, x: &[f64], acc: &mut Acc) -> boo
         let first = v_first_term(&r.kin, &xq);
         let vex = &ex_f / &ex_u;
         let rr = q_to_f64(&(first / &vex)).abs().max(1.0);
-        let tu = 2f64.powi(-86) * cond;
-        let tv = 2f64.powi(-86) * cond * rr;
+        // the recovered parameters carry a relative error 2^-104 * spread (differences of L entries)
+        // the recovered parameters carry a relative error 2^-104 * spread (differences of L entries); V is amplified by the
+        // scaled condition number and by its cancellation ratio
+        let kappa_s = l.scaled_cond1().map(|c| q_to_f64(&c)).unwrap_or(f64::INFINITY);
+        let tu = 2f64.powi(-86) * cond + 2f64.powi(-96) * spread;
+        let tv = 2f64.powi(-86) * kappa_s * rr + 2f64.powi(-96) * spread * rr.min(1e3);
         let eu = rel_err(&uq, &ex_u);
         let ev = rel_err(&vq, &vex);
         acc.max("dd_sampler_u_units", eu / tu);
         acc.max("dd_sampler_v_units", ev / tv);
+        acc.max("dd_sampler_cancellation_ratio_max", rr);
         if tu <= 1e-12 && !(eu <= tu) {
             acc.violate(key("wide type: u"), "a higher-precision type yields correspondingly more precise results", format!("double-double u has relative error {eu:e} against the exact spanning-tree sum (allowed {tu:e})"), pc());
         }
-        if tv <= 1e-12 && !(ev <= tv) {
+        if tv <= 1e-3 {
+            acc.inc("dd_sampler_v_judged");
+            if rr >= 1e15 {
+                acc.inc("dd_sampler_v_judged_beyond_f64_cancellation");
+            }
+        }
+        if tv <= 1e-3 && !(ev <= tv) {
             acc.violate(key("wide type: v"), "a higher-precision type yields correspondingly more precise results", format!("double-double v has relative error {ev:e} against F/U (allowed {tv:e})"), pc());
         }
     }
@@ -780,6 +791,36 @@ pub fn dd_sampler_pass(ctx: &Ctx) -> Acc {
                 continue;
             }
             for (x, _) in sector_points(&case, order, 1, &roles) {
+                check_dd_sample(&case, &r, &x, acc);
+            }
+        }
+        // cancellation from the kinematics: a loop-momentum offset 2^30 times larger than the physical momenta makes
+        // V = Σ x (m²+p²) - uᵀL⁻¹u cancel by ~1e18 while L stays well conditioned: hopeless in f64, 14 digits left in double-double
+        {
+            let a: Vec<Vec<Q>> = (0..case.nl)
+                .map(|l| (0..case.g.dim).map(|c| qf(2f64.powi(30 - ((l + c) % 3) as i32)) * qi(if (l + c) % 2 == 0 { 1 } else { -1 })).collect())
+                .collect();
+            let koff = case.base_kin().offset(&a);
+            if let Ok(roff) = route(&case, &koff) {
+                let sectors = all_sectors(case.g.ne());
+                for order in sectors.iter().step_by((sectors.len() / 4).max(1)) {
+                    let x = sector_defaults(&case, order);
+                    acc.inc("dd_sampler_offset_points");
+                    check_dd_sample(&case, &roff, &x, acc);
+                }
+            }
+        }
+        // extreme cancellation in V: the momentum-carrying tree edge e0 is removed first (parameter 1) and every other
+        // parameter is 1e-12 ... 1e-18 of it; f64 cancels completely there, a wider type must not
+        let ne = case.g.ne();
+        let order: Vec<usize> = (0..ne).collect();
+        let g1 = case.g.full() ^ 1;
+        let w1 = q_to_f64(&case.rt.omega[g1]);
+        for k in [12.0, 15.0, 17.0, 18.0] {
+            let mut x = sector_defaults(&case, &order);
+            x[1] = libm::pow(10.0, -k * w1);
+            if x[1] > 1e-300 {
+                acc.inc("dd_sampler_cancellation_points");
                 check_dd_sample(&case, &r, &x, acc);
             }
         }
